@@ -1,6 +1,7 @@
 """C08 — NSEC denial of existence: guard sets on the Secure yields of verify_nsec (RFC 4035 5.4,
 RFC 6840 4, RFC 4592), the cover test, no_closer_matches, authenticated inputs."""
 import re
+import helpers
 from api import shorten
 import C09
 
@@ -157,3 +158,6 @@ def run(cx):
         cx.guard('C08.P1', t, {'secure-outcome': r'^is\(arg2\.1\.outcome,Secure\)$',
                                'rrsig-labels-lt-owner-labels': r'^lt\(SIG::input\(arg2\.1\.outcome@Secure\.rrsig\)\.num_labels,Name::num_labels\(arg2\.1\.outcome@Secure\.owner\)\)$'},
                  expect=1, fn=w)
+
+    # ---------------------------------------------------------------- H helper semantics the guards above rely on (rules/helpers.py)
+    helpers.check(cx, 'C08.H', ['Name::zone_of', 'Name::base_name', 'Name::trim_to', 'Name::is_wildcard', 'RecordTypeSet::contains', 'NSEC::type_set'])
